@@ -233,9 +233,13 @@ func (e *Engine) findAllIndicesLoop(haystack []byte, n int, results [][2]int) []
 			} else {
 				matchStart := e.reverseDFA.SearchReverse(state.revDFACache, haystack, pos, matchEnd)
 				if matchStart < 0 {
-					break
+					// The forward DFA found a match, so a negative start means the reverse
+					// DFA gave up (cache full or cleared mid-scan), not "no match": let the
+					// per-search PikeVM find this match's bounds.
+					start, end, found = state.pikevm.SearchAt(haystack, pos)
+				} else {
+					start, end, found = matchStart, matchEnd, true
 				}
-				start, end, found = matchStart, matchEnd, true
 			}
 		} else {
 			start, end, found = e.findIndicesAtWithState(haystack, pos, state)
@@ -327,9 +331,13 @@ func (e *Engine) Count(haystack []byte, n int) int {
 			} else {
 				matchStart := e.reverseDFA.SearchReverse(state.revDFACache, haystack, pos, matchEnd)
 				if matchStart < 0 {
-					break
+					// The forward DFA found a match, so a negative start means the reverse
+					// DFA gave up (cache full or cleared mid-scan), not "no match": let the
+					// per-search PikeVM find this match's bounds.
+					start, end, found = state.pikevm.SearchAt(haystack, pos)
+				} else {
+					start, end, found = matchStart, matchEnd, true
 				}
-				start, end, found = matchStart, matchEnd, true
 			}
 		} else {
 			start, end, found = e.findIndicesAtWithState(haystack, pos, state)
